@@ -83,6 +83,21 @@ def _registry():
     def data_path(p):
         return conf.get_data_json_path(Path(p))
 
+    def mutate_nested(rec):
+        """What a careless caller does with a record it received: edits it in place, nested values included."""
+        n = 0
+        if isinstance(rec, dict):
+            for k in list(rec):
+                v = rec[k]
+                if isinstance(v, list):
+                    v.append("MUTATED-BY-CALLER")
+                    n += 1
+                elif isinstance(v, dict):
+                    v["MUTATED-BY-CALLER"] = 1
+                    n += 1
+            rec["MUTATED-BY-CALLER"] = 1
+        return n
+
     from .confspec import introspect
 
     def pool_check():
@@ -131,6 +146,7 @@ def _registry():
         "eq": lambda a, b: a == b, "lt": lambda a, b: a < b, "contains": lambda a, b: b in a,
         "truediv": lambda a, b: a / b,
         "noop": lambda *a, **k: None,
+        "mutate_nested": mutate_nested,
         "getsize": lambda p: os.path.getsize(str(p)) if os.path.isfile(str(p)) else -1,
     }
     return reg
